@@ -144,6 +144,14 @@ func (c *racConv) val(t types.Type, v interface{}) Term {
 			return e.reg.zero(t)
 		}
 		id := asInt(sl[0])
+		if id != 0 && asInt(sl[3]) == 0 {
+			// a non-nil slice of capacity 0: Go points all of them at one shared address, the verifier's model
+			// gives every make() its own array. The identity is left open (some positive reference), so no
+			// clause can be refuted through it.
+			z := e.havoc("zerocap", sInt)
+			e.emit("(assert (> %s 0))", z.S)
+			return Term{fmt.Sprintf("(mk_Slice %s 0 0 0)", z.S), sSlice}
+		}
 		if id != 0 {
 			c.arr(id, u.Elem())
 		}
@@ -476,7 +484,7 @@ func racEval(p *Program, fn *ssa.Function, fc *FuncC, t *racTry) (legal bool, re
 	var ens []racClause
 	if t.Post != nil {
 		post := &State{heap: map[string]Term{}, locals: map[*ssa.Alloc]Term{}, sfx: "@post"}
-		post.alloc = tInt(int64(t.Post.Next))
+		post.alloc = tInt(int64(t.Post.Next) + 4096) // slack: zero-capacity makes leave no trace in the dump but are allocations in the model
 		cq := &racConv{e: e, st: post, d: t.Post, seen: map[string]bool{}}
 		// the parameters' objects in the post-state (parameter values themselves do not change)
 		for _, pa := range fn.Params {
@@ -652,6 +660,9 @@ func racFunction(p *Program, name string) *racResult {
 		for _, t := range ts {
 			if t.GenErr != "" {
 				continue
+			}
+			if time.Since(t0) > budget+budget/2 {
+				break // the search is over budget: judge no further executions of this batch
 			}
 			t := t
 			wg.Add(1)
